@@ -424,6 +424,24 @@ def run(tier: str, seed: int) -> int:
                     run_.violation(dict(key, mode="value", what=nm), {})
             if f1.shape != f2.shape or not float(np.max(np.abs(f1 - f2))) <= RTOL * (1 + float(np.max(np.abs(f1)))):
                 run_.violation(dict(key, mode="value", what="step_fourier: jit after eager"), {})
+    # ---- default (float32) session, stiff / strongly oscillatory linear operators: construction under a trace vs eager construction (c06_f32.py)
+    import json as _json
+    import subprocess as _sp
+    import sys as _sys
+    _outp = os.path.join(work, "c06_f32.json")
+    _env = dict(os.environ, VERIF_C06_OUT=_outp, JAX_PLATFORMS="cpu")
+    _env.pop("JAX_ENABLE_X64", None)
+    _pr = _sp.run([_sys.executable, "-m", "harness.checks.c06_f32"], env=_env, capture_output=True, text=True, timeout=1800,
+                  cwd=os.path.dirname(os.path.dirname(os.path.dirname(os.path.abspath(__file__)))))
+    if _pr.returncode != 0 or not os.path.exists(_outp):
+        raise RuntimeError("float32 child failed:\n" + _pr.stdout[-1500:] + _pr.stderr[-1500:])
+    for _c in _json.load(open(_outp)):
+        run_.case(("f32-construction", _c["cls"]))
+        key = {"kind": "construction-under-trace", "cls": _c["cls"], "session": "float32"}
+        if "error" in _c:
+            run_.violation(dict(key, mode="raised"), {"exception": _c["error"]})
+        elif not (_c["finite"] and _c["vmap_rel"] <= 2e-5 and _c["jit_rel"] <= 2e-5):
+            run_.violation(dict(key, mode="value"), {k: _c[k] for k in ("vmap_rel", "jit_rel", "finite")})
     run_.extra["construction_histories"] = len(histories)
     run_.extra["uncovered"] = uncovered
     run_.rule = ("integer cases: one per terminal TLC state (program record; exact equality and shape); stepper cases: (class, program) with the eager "
